@@ -23,7 +23,8 @@ RULE = ("both tiers enumerate the COMPLETE finite domain of the property: every 
         "200000): well-formed ascending scales of 1..12 semitones in octave sizes 1..36, irregular ones (unsorted, "
         "duplicates, semitones outside the octave, negative) and a few negative octave sizes, tonics inside and outside "
         "the octave.  A case = one key (distinct by tonic, octave size, semitones) or one name / MIDI number; a key case "
-        "is non-trivial when at least one queried note is out of key and at least one degree is negative.")
+        "is non-trivial when at least one queried note is out of key and at least one degree is negative."
+        " Also (implementation-only oracles): keys that change while patterns read them, derived / re-assigned keys, PDegree over chords of degrees with a Scale or a Key of any tonic.")
 ASSUMPTIONS = [
     "notes, degrees, tonics and semitones are Python ints (float degrees/notes, which the code tolerates, are not modelled)",
     "scales are non-empty with a non-zero octave size (the code raises ZeroDivisionError/IndexError otherwise; the model is unspecified there)",
